@@ -1,5 +1,6 @@
 """C20 - reader-writer lock: writers exclusive, readers shared, no deadlock."""
 import itertools
+import threading
 import os
 import sys
 
@@ -137,19 +138,37 @@ class System:
                 self._locks(v, out, seen)
         return out
 
-    def _ints(self, obj, seen=None):
+    def _ints(self, obj, seen=None, depth=0):
+        """abstract value of the lock object's own fields: numbers and flags by value, thread objects and
+        thread identifiers by the index of the scheduled thread they belong to, nested objects of the
+        lock module recursively, anything else by type name (the mutexes are recorded separately)"""
         seen = set() if seen is None else seen
-        if id(obj) in seen:
-            return ()
+        if isinstance(obj, (bool, int, str, bytes, float, type(None))):
+            if isinstance(obj, int) and not isinstance(obj, bool) and obj > 4096:
+                for t in self.sched.threads:
+                    if t.ident == obj:
+                        return ("thread", t.idx)
+            return obj
+        if isinstance(obj, S.FakeLock):
+            return "lock"
+        if isinstance(obj, threading.Thread):
+            for t in self.sched.threads:
+                if t.ident == obj.ident:
+                    return ("thread", t.idx)
+            return ("thread", -1)
+        if id(obj) in seen or depth > 6:
+            return "..."
         seen.add(id(obj))
-        out = []
-        for k in sorted(vars(obj)):
-            v = vars(obj)[k]
-            if isinstance(v, int):
-                out.append(v)
-            elif hasattr(v, "__dict__") and not isinstance(v, (type, S.FakeLock)):
-                out.extend(self._ints(v, seen))
-        return tuple(out)
+        if isinstance(obj, (list, tuple)):
+            return tuple(self._ints(v, seen, depth + 1) for v in obj)
+        if isinstance(obj, (set, frozenset)):
+            return tuple(sorted((self._ints(v, seen, depth + 1) for v in obj), key=repr))
+        if isinstance(obj, dict):
+            return tuple(sorted(((self._ints(k, seen, depth + 1), self._ints(v, seen, depth + 1))
+                                 for k, v in obj.items()), key=repr))
+        if type(obj).__module__ == RWMOD.__name__ and hasattr(obj, "__dict__"):
+            return tuple((k, self._ints(v, seen, depth + 1)) for k, v in sorted(vars(obj).items()))
+        return type(obj).__name__
 
     def state(self):
         lockidx = {id(l): i for i, l in enumerate(self.locks)}
@@ -214,11 +233,15 @@ def execute(sysdef, chooser):
     return outcome
 
 
+HARD_RUN_CAP = 4000000
+
+
 def dfs(ctx, label, R, W, rounds, hold=False, prefixes=None, lines=True, max_runs=None, programs=None):
     """exhaustive schedule enumeration with visited-state pruning"""
     visited = set()
     stack = [tuple(p) for p in (prefixes or [()])][::-1]
-    runs = complete = 0
+    runs = complete = bad_runs = 0
+    capped = False
     transitions = 0
     max_readers = 0
     case_base = {"kind": "schedule", "R": R, "W": W, "rounds": rounds, "hold": hold, "lines": lines,
@@ -260,18 +283,26 @@ def dfs(ctx, label, R, W, rounds, hold=False, prefixes=None, lines=True, max_run
             ctx.nontrivial_enum()
         for kind, detail in sysdef.violations:
             ctx.fail("%s/%dR%dW" % (kind, R, W), dict(case_base, schedule=list(choices)), repr(detail)[:600])
-        if sysdef.violations and len([1 for s in ctx.failures]) > 6:
+        if sysdef.violations:
+            bad_runs += 1
+            if bad_runs >= 25:
+                ctx.event("%s:stopped-after-25-violating-schedules" % label)
+                break
+        if len(stack) > 3000000 or runs >= HARD_RUN_CAP:
+            # a state space far beyond anything the lock has on the unchanged tree: inconclusive, not a verdict
+            ctx.event("%s:hard-budget-reached" % label)
+            capped = True
             break
     ctx.event("%s:runs" % label, runs)
     ctx.event("%s:complete-schedules" % label, complete)
     ctx.event("%s:states" % label, len(visited))
     ctx.event("%s:transitions" % label, transitions)
-    if R >= 2 and not stack and max_runs is None and prefixes is None:
+    if R >= 2 and not stack and max_runs is None and prefixes is None and not capped and not bad_runs:
         if max_readers < 2:
             ctx.fail("readers-never-share/%dR%dW" % (R, W), dict(case_base, schedule=[]),
                      "no explored state had two readers inside")
     ctx.event("%s:max-readers-inside=%d" % (label, max_readers))
-    return runs, len(visited)
+    return runs, len(visited), (capped or bad_runs > 0)
 
 
 def replay_schedule(ctx, case):
@@ -361,10 +392,10 @@ def run_unit(ctx, name, **kw):
                                     "" if kw.get("lines", True) else "/mutex-points-only")
         if kw.get("programs"):
             label = "+".join(kw["programs"]) + ("" if kw.get("lines", True) else "/mutex-points-only")
-        runs, states = dfs(ctx, label, kw["R"], kw["W"], kw["rounds"], kw.get("hold", False), kw.get("prefixes"),
+        runs, states, cut = dfs(ctx, label, kw["R"], kw["W"], kw["rounds"], kw.get("hold", False), kw.get("prefixes"),
                            kw.get("lines", True), kw.get("max_runs"), kw.get("programs"))
         ctx.sample({"kind": "dfs", "system": label, "prefix": kw.get("prefixes"), "runs": runs, "states": states})
-        if kw.get("max_runs") is None:
+        if kw.get("max_runs") is None and not cut:
             ctx.exhausted("all schedules of %s%s" % (label, " below prefix %s" % kw["prefixes"] if kw.get("prefixes") else ""))
     elif name == "random":
         random_schedules(ctx, "+".join(kw["programs"]) if kw.get("programs") else "%dR%dW x%d" % (kw["R"], kw["W"], kw["rounds"]),
